@@ -2,6 +2,7 @@ package rules
 
 import (
 	"go/token"
+	"go/types"
 	"strings"
 
 	"golang.org/x/tools/go/ssa"
@@ -25,6 +26,8 @@ type runModel struct {
 	comments ssa.Value
 	matched  ssa.Value
 	errsPhi  *ssa.Phi // the `errors` accumulator at the loop header
+	// optWritten: option fields assigned somewhere in the module (not constant)
+	optWritten map[string]bool
 }
 
 const (
@@ -110,6 +113,20 @@ func buildRunModel(r *an.Run) *runModel {
 	if m.errsPhi == nil {
 		return bad("the per-file error accumulator (a []error carried around the loop)")
 	}
+	m.optWritten = map[string]bool{}
+	for _, g := range r.P.ModuleFuncs() {
+		for _, b := range g.Blocks {
+			for _, in := range b.Instrs {
+				if st, ok := in.(*ssa.Store); ok {
+					if fa, ok := st.Addr.(*ssa.FieldAddr); ok {
+						if name := optField(&ssa.UnOp{Op: token.MUL, X: fa}); name != "" {
+							m.optWritten[name] = true
+						}
+					}
+				}
+			}
+		}
+	}
 	r.Saw("model main.mainCmd.Run: options, file loop, ReadFile, ParseFile, Apply, errors accumulator")
 	return m
 }
@@ -137,6 +154,65 @@ func (m *runModel) optBranches(name string) []an.BranchOn {
 	}
 	return out
 }
+
+// optField returns the name of the options field v is a load of ("" if none).
+// The options object is identified by its type — there is one per process —
+// so the same hypothesis applies inside predicate helpers that take it.
+func optField(v ssa.Value) string {
+	var t types.Type
+	name := ""
+	switch x := v.(type) {
+	case *ssa.UnOp:
+		fa, ok := x.X.(*ssa.FieldAddr)
+		if !ok || x.Op != token.MUL {
+			return ""
+		}
+		t, name = fa.X.Type(), fieldNameOf(fa)
+	case *ssa.Field:
+		t, name = x.X.Type(), fieldNameOfStruct(x.X.Type(), x.Field)
+	default:
+		return ""
+	}
+	if p, ok := t.Underlying().(*types.Pointer); ok {
+		t = p.Elem()
+	}
+	if n, ok := t.(*types.Named); ok && n.Obj().Name() == "options" && n.Obj().Pkg() != nil && n.Obj().Pkg().Path() == an.Module {
+		return name
+	}
+	return ""
+}
+
+// hyp builds the hypothesis "these option fields / these SSA booleans have
+// these values". An option field that some module function assigns is not
+// constant during the run and is left free.
+func (m *runModel) hyp(opts map[string]bool, vals map[ssa.Value]bool) an.Assume {
+	return func(v ssa.Value) (bool, bool) {
+		if x, ok := vals[v]; ok {
+			return x, true
+		}
+		if name := optField(v); name != "" && !m.optWritten[name] {
+			if x, ok := opts[name]; ok {
+				return x, true
+			}
+		}
+		return false, false
+	}
+}
+
+// unreachableUnder reports whether block b of Run cannot execute under the
+// hypothesis (path-sensitive through boolean variables and predicate helpers).
+func (m *runModel) unreachableUnder(b *ssa.BasicBlock, h an.Assume) bool {
+	return !an.ReachUnder(m.run.Blocks[0], h, nil)[b]
+}
+
+// iterationUnder is iterationFrom under a hypothesis.
+func (m *runModel) iterationUnder(from ssa.Instruction, h an.Assume) map[*ssa.BasicBlock]bool {
+	hdr := m.loop.Loop.Header
+	return an.ReachUnder(from.Block(), h, func(b *ssa.BasicBlock, i int) bool { return b.Succs[i] == hdr })
+}
+
+// decides counts the branches of Run the hypothesis decides.
+func (m *runModel) decides(h an.Assume) int { return an.DecidedBranches(m.run, h) }
 
 // edgesWhen returns the CFG edges taken when the branches have value val.
 func edgesWhen(brs []an.BranchOn, val bool) []an.CtrlEdge {
